@@ -590,6 +590,7 @@ type Guard struct {
 	rejSucc int
 	ctx     []ctxEdge
 	Avoid   string // non-empty: how the guard can be avoided (violation of unavoidability)
+	merged  bool   // an exit that stands for several returns with the same result
 	noAfter bool   // composed from a helper's guard that is not passed on every way through the helper
 }
 
@@ -820,16 +821,20 @@ func (f *FuncFacts) isLoopExit(d *ssa.BasicBlock, k int) bool {
 
 func simplifyAtoms(atoms []string) []string {
 	// x == c makes every x != c' redundant
+	// (only for a term compared with constants: `nil == f(x)` says nothing about `nil != g(y)`)
+	constLike := func(s string) bool {
+		return s != "" && !strings.ContainsAny(s, "(‹[*&") && !strings.Contains(s, " ")
+	}
 	eq := map[string]bool{}
 	for _, a := range atoms {
-		if i := strings.Index(a, " == "); i > 0 {
+		if i := strings.Index(a, " == "); i > 0 && !constLike(a[:i]) && constLike(a[i+4:]) {
 			eq[a[:i]] = true
 		}
 	}
 	set := map[string]bool{}
 	var out []string
 	for _, a := range atoms {
-		if i := strings.Index(a, " != "); i > 0 && eq[a[:i]] {
+		if i := strings.Index(a, " != "); i > 0 && eq[a[:i]] && constLike(a[i+4:]) {
 			continue
 		}
 		if a == "true" {
@@ -847,7 +852,18 @@ func simplifyAtoms(atoms []string) []string {
 // Accepts lists the non-failing returns with the branch conditions that lead
 // to them: "accept when ..." / "forward →callee when ...".
 func (f *FuncFacts) Accepts() []*Guard {
-	return mergeExits(f.AcceptsRaw())
+	out := mergeExits(f.AcceptsRaw())
+	// a predicate: when it fails is exactly what the rejecting guards say; several successful
+	// returns of the constant result are "everything else", however the cases were grouped
+	if f.mode == rejFalse || f.mode == rejTrue {
+		want := "accept <- (" + fmt.Sprint(f.mode == rejFalse) + ")"
+		for _, g := range out {
+			if g.merged && g.Code == want {
+				g.Atoms = []string{"always"}
+			}
+		}
+	}
+	return out
 }
 
 // AcceptsRaw: one exit per return (the hand-written protocol rows and the BIP9 edge extraction
@@ -976,15 +992,21 @@ func mergeExits(in []*Guard) []*Guard {
 				unconditional = true
 				break
 			}
-			if len(rest) == 1 {
-				if parts, ok := splitOrAtom(rest[0]); ok {
+			// one short-circuit join among the conjuncts: distribute it
+			expanded := false
+			for i, a := range rest {
+				if parts, ok := splitOrAtom(a); ok {
 					for _, p := range parts {
-						alts = append(alts, []string{p})
+						alt := append(append(append([]string{}, rest[:i]...), rest[i+1:]...), p)
+						alts = append(alts, simplifyAtoms(alt))
 					}
-					continue
+					expanded = true
+					break
 				}
 			}
-			alts = append(alts, rest)
+			if !expanded {
+				alts = append(alts, rest)
+			}
 		}
 		atoms := append([]string{}, common...)
 		if !unconditional {
@@ -997,6 +1019,7 @@ func mergeExits(in []*Guard) []*Guard {
 			atoms = []string{"always"}
 		}
 		m := *gs[0]
+		m.merged = true
 		m.Atoms = atoms
 		out = append(out, &m)
 	}
